@@ -112,7 +112,8 @@ class Sub:
 
     def __init__(self, name, strategy, test, examples, generic=None,
                  shards=1, kind="given", machine=None, steps=30,
-                 max_rounds=4, budget_s=None, shrink_quick=True):
+                 max_rounds=4, budget_s=None, shrink_quick=True,
+                 pregenerate=False):
         self.name = name
         self.strategy = strategy
         self.test = test
@@ -126,6 +127,11 @@ class Sub:
         self.budget_s = budget_s
         # expensive sub-checks skip Hypothesis' shrink phase in the quick tier
         self.shrink_quick = shrink_quick
+        # expensive sub-checks: the parent draws all cases with Hypothesis
+        # (one seeded generate phase, so the distribution is not biased
+        # towards each shard's minimal first example), workers only evaluate
+        # them; failing cases are reported unshrunk.
+        self.pregenerate = pregenerate
 
 
 class Stats:
@@ -268,6 +274,64 @@ def run_given(prop, sub, seed, tier, shard=0, examples=None, t_end=None,
                 stats.failures.append((sub.name, d, last["case"], o))
                 excluded.add(d)
     return stats
+
+
+def pregenerate_cases(prop, sub, seed, n):
+    import hypothesis
+    from hypothesis import HealthCheck, Phase, given, settings
+    out = []
+    seen = set()
+
+    def body(case):
+        c = to_json(case)
+        fp = fingerprint(c)
+        if fp not in seen:
+            seen.add(fp)
+            out.append(c)
+    t = given(sub.strategy)(body)
+    t = hypothesis.seed(derive_seed(seed, prop, sub.name, "pregen"))(t)
+    t = settings(max_examples=n, deadline=None, database=None,
+                 derandomize=False, suppress_health_check=list(HealthCheck),
+                 phases=[Phase.generate])(t)
+    t()
+    return out
+
+
+def run_cases(prop, sub, cases, t_end=None):
+    """Evaluate explicit cases (no Hypothesis in the worker)."""
+    stats = Stats()
+    excluded = set()
+    for case in cases:
+        if t_end is not None and time.time() > t_end:
+            stats.inconclusive += 1
+            continue
+        for _ in range(sub.max_rounds):
+            try:
+                _call(sub, case, stats, excluded)
+                break
+            except PropertyFailure as e:
+                for d, o in e.multi:
+                    stats.failures.append((sub.name, d, to_json(case),
+                                           to_json(o)))
+                    excluded.add(d)
+    return stats
+
+
+def _cases_entry(args):
+    modname, subname, tier, cases, t_end = args
+    try:
+        import importlib
+        mod = importlib.import_module(modname)
+        sub = [s for s in mod.subchecks(tier) if s.name == subname][0]
+        return ("ok", run_cases(mod.PROPERTY, sub, cases, t_end))
+    except HarnessError as e:
+        return ("harness", str(e))
+    except BaseException as e:  # noqa: BLE001
+        return ("harness", f"{type(e).__name__}: {e}\n{traceback.format_exc()}")
+
+
+def _entry(job):
+    return _cases_entry(job[1]) if job[0] == "cases" else _shard_entry(job[1])
 
 
 def _shard_entry(args):
@@ -462,23 +526,32 @@ def main_run(mod, tier, seed, only=None, replay=None):
     jobs = []
     for s in subs:
         n = max(1, s.shards if tier == "thorough" else min(s.shards, 8))
+        if s.pregenerate:
+            allc = list(s.generic) + load_regressions(prop, s.name)
+            if s.strategy is not None and s.examples > 0:
+                allc += pregenerate_cases(prop, s, seed, s.examples)
+            n = max(1, min(n * 2, len(allc)))
+            for sh in range(n):
+                jobs.append(("cases", (mod.__name__, s.name, tier,
+                                       allc[sh::n], t_end)))
+            continue
         per = max(1, math.ceil(s.examples / n)) if s.examples > 0 else 0
         for sh in range(n):
-            jobs.append((mod.__name__, s.name, seed, tier, sh, per, t_end,
-                         n))
+            jobs.append(("shard", (mod.__name__, s.name, seed, tier, sh, per,
+                                   t_end, n)))
     nproc = int(os.environ.get("VERIF_NPROC", "16"))
     nproc = max(1, min(nproc, len(jobs)))
     if nproc == 1 or os.environ.get("VERIF_SERIAL"):
-        results = [_shard_entry(j) for j in jobs]
+        results = [_entry(j) for j in jobs]
     else:
         ctx = mp.get_context("fork")
         with ctx.Pool(nproc, maxtasksperchild=1) as pool:
-            results = pool.map(_shard_entry, jobs, chunksize=1)
+            results = pool.map(_entry, jobs, chunksize=1)
     for j, (status, payload) in zip(jobs, results):
         if status == "harness":
-            harness_errors.append((j[1], payload))
+            harness_errors.append((j[1][1], payload))
             continue
-        per_sub.setdefault(j[1], Stats()).merge(payload)
+        per_sub.setdefault(j[1][1], Stats()).merge(payload)
     for name, st in per_sub.items():
         total.merge(st)
 
